@@ -51,6 +51,15 @@ class _Ctx(object):
 CTX = _Ctx()
 
 
+def _note_hash():
+    # a symbolic value used as a dict key: python compares candidates of equal hash with ==, which goes through
+    # the path driver; keys are therefore equal iff their terms are structurally identical or provably equal with
+    # a colliding hash.  Recorded as an assumption of the run.
+    msg = 'symbolic value used as dict key (equality of keys decided structurally)'
+    if msg not in CTX.assumed:
+        CTX.assumed.append(msg)
+
+
 def hyps():
     return list(CTX.path) + list(CTX.facts) + list(CTX.const_facts.values())
 
@@ -315,7 +324,8 @@ class Z(object):
         return Z(z3.If(self.t >= 0, self.t, -self.t), self.dfn)
 
     def __hash__(self):
-        raise NeedsConcrete('symbolic int used as hash key')
+        _note_hash()
+        return hash(('Z', z3.simplify(self.t).hash()))
 
     def __index__(self):
         raise NeedsConcrete('symbolic int used as index / range bound')
@@ -445,7 +455,8 @@ class R(object):
     def __ne__(s, o): return s._cmp(o, lambda a, b: a != b)
 
     def __hash__(s):
-        raise NeedsConcrete('symbolic real used as hash key')
+        _note_hash()
+        return hash(('R', z3.simplify(s.t).hash()))
 
     def __float__(s):
         raise NeedsConcrete('symbolic real forced to float')
@@ -659,7 +670,8 @@ class C(object):
         return r if r is NotImplemented else ~r
 
     def __hash__(s):
-        raise NeedsConcrete('symbolic complex used as hash key')
+        _note_hash()
+        return hash(('C', z3.simplify(s.re.t).hash(), z3.simplify(s.im.t).hash()))
 
     def __float__(s):
         raise NeedsConcrete('symbolic complex forced to float')
